@@ -56,6 +56,10 @@ def cases(tier, seed):
     tols = (1e-2, 1e-3) if quick else (1e-2, 1e-3, 1e-4)
     for d, B, tol, ab, mi in itertools.product(devs, fields, tols, range(len(AB)), (1000, 3)):
         out.append(dict(fam="run", dev=d, B=B, tol=tol, ab=ab, maxit=mi))
+    # the same physics stated in other units (xi = 1000 nm / 1e-3 mm): pins the powers of xi in the SI prefactor
+    for d, B in itertools.product(("G5nm", "G5mm"), (0.2,) if quick else fields):
+        for tol in (1e-3,) if quick else tols:
+            out.append(dict(fam="run", dev=d, B=B, tol=tol, ab=0, maxit=1000))
     for d in ("G1s", "G5"):
         out.append(dict(fam="off", dev=d, B=0.6))
     return out
@@ -131,6 +135,8 @@ def _device(name):
         return zoo.device("G1", lam=0.7)
     if name == "G5":
         return zoo.device("G5", lam=1.0)
+    if name in ("G5nm", "G5mm"):
+        return zoo.with_mesh_of(zoo.device("G5", lam=1.0), "G5", name[2:], lam=1.0)
     return zoo.device("G2", terminals=False, lam=1.0)
 
 
@@ -176,13 +182,14 @@ def run_run(case):
     alpha, beta = AB[case["ab"]]
     dt = 2.0**-5
     nsteps = 5
-    kw = dict(applied_vector_potential=case["B"])
+    fu = {"G5nm": "uT", "G5mm": "T"}.get(case["dev"], "mT")
+    kw = dict(applied_vector_potential=case["B"] * {"uT": 1e3, "T": 1e-3, "mT": 1.0}[fu])
     if case["dev"] == "G1b":
         kw["terminal_currents"] = {"source": 1.0, "drain": -1.0}
     opts = tdgl.SolverOptions(
         solve_time=nsteps * dt, dt_init=dt, dt_max=dt, adaptive=False, save_every=1, output_file="out.h5",
         include_screening=True, screening_tolerance=case["tol"], screening_step_size=alpha, screening_step_drag=beta,
-        max_iterations_per_step=case["maxit"], progress_interval=10**9,
+        max_iterations_per_step=case["maxit"], progress_interval=10**9, field_units=fu,
     )
     solver = tdgl.TDGLSolver(dev, opts, **kw)
     si = SI(dev)
